@@ -36,17 +36,20 @@ type Recv struct {
 	Layout string `json:"layout"`
 	Stored string `json:"stored"`
 	Shares string `json:"shares"`
+	EonKey string `json:"eonkey"` // key material of the newest successful DKG of every set: "main" | "other"
 }
 
 type Case struct {
 	Fl   string `json:"fl"` // "core" | "gnosis" | "service": the node assembly the case is delivered to
 	M    Msg    `json:"m"`
 	Recv Recv   `json:"recv"`
+	Hist string `json:"hist"`           // "fresh" | "stale" (see GossipValidate.tla)
+	Warm *Msg   `json:"warm,omitempty"` // stale cases: the delivery that precedes the case on the same handler objects
 }
 
 func (c Case) Key() string {
 	return fmt.Sprintf("%s|%s|%v%v%v%v|%s|%d|%v|%s|%s|%s|%s", c.Fl, c.M.Mt, c.M.TopicOk, c.M.TypeOk, c.M.VersionOk, c.M.InstOk, c.M.Set, c.M.Snd,
-		c.M.Entries, c.M.Extra, c.Recv.Layout, c.Recv.Stored, c.Recv.Shares)
+		c.M.Entries, c.M.Extra, c.Recv.Layout, c.Recv.Stored, c.Recv.Shares+"/"+c.Recv.EonKey+"/"+c.Hist)
 }
 
 // Concrete is a case made concrete: the identities behind the ranks and, when the case comes
@@ -224,8 +227,8 @@ func (w *World) BuildProto(cc *Concrete) p2pmsg.Message {
 		if k == "swap" { // the genuine key of the partner entry's identity
 			if j := swapPartner(m.Entries, i); j >= 0 {
 				k, tokenID = "valid", w.identOf(cc, m.Entries[j].R)
-			} else {
-				k = "wrong"
+			} else { // no other identity in the message: the genuine key of an identity outside it
+				k, tokenID = "valid", append([]byte("swap-alone-"), id...)
 			}
 		}
 		out.Keys = append(out.Keys, &p2pmsg.Key{IdentityPreimage: id, Key: w.KeyBytes(tokenID, k)})
